@@ -120,6 +120,31 @@ theorem nextvis_eq_reads {f : Format} {s : St} {src : Src} {x : Option UInt8} {s
     (h : nextvis f s src = (x, s1, src1)) : Reads src src1 := by
   have hv := nextvis_reads f s src; rw [h] at hv; exact hv
 
+theorem optFirst_reads (f : Format) (s : St) (src : Src) : Reads src (optFirst f s src).2.2 := by
+  unfold optFirst
+  split
+  · have := getc_reads src
+    split
+    · rename_i h; rw [h] at this; exact this
+    · rename_i h; rw [h] at this; exact this
+  · exact nextvis_reads _ _ _
+
+theorem optFirst_eq_reads {f : Format} {s : St} {src : Src} {x : Option UInt8} {s1 : St} {src1 : Src}
+    (h : optFirst f s src = (x, s1, src1)) : Reads src src1 := by
+  have hv := optFirst_reads f s src; rw [h] at hv; exact hv
+
+theorem optFirst_some (f : Format) (s : St) (src : Src) (c : UInt8) (s1 : St) (src1 : Src)
+    (h : optFirst f s src = (some c, s1, src1)) : ReadsSome src src1 := by
+  unfold optFirst at h
+  split at h
+  · split at h
+    · cases h
+    · rename_i c' src' hg
+      simp only [Prod.mk.injEq, Option.some.injEq] at h
+      rw [← h.2.2]
+      exact getc_some src c' src' hg
+  · exact nextvis_some f s src c s1 src1 h
+
 theorem Err.code_neg (e : Err) : e.code < 0 := by cases e <;> decide
 
 theorem err_not_pos (e : Err) (s : St) (src : Src) : ¬ 0 < (err e s src).1 := by
@@ -165,12 +190,12 @@ theorem parseOption_reads (cfg : Cfg) (s : St) (src : Src) : Reads src (parseOpt
   simp only []
   split
   · rename_i s1 src1 h
-    have hv := nextvis_eq_reads h
+    have hv := optFirst_eq_reads h
     split
     · exact hv
     · split <;> exact hv
   · rename_i c s1 src1 h
-    have hv := nextvis_eq_reads h
+    have hv := optFirst_eq_reads h
     split
     · exact hv
     · split
@@ -190,7 +215,7 @@ theorem parseOption_pos (cfg : Cfg) (s : St) (src : Src) (h : 0 < (parseOption c
     · nopos
     · split <;> nopos
   · rename_i c s1 src1 h
-    have hv := nextvis_some cfg.fmt s src c s1 src1 h
+    have hv := optFirst_some cfg.fmt s src c s1 src1 h
     intro _
     split
     · exact hv.2
